@@ -48,14 +48,18 @@ theorem ok_windows_1258 : TableOk t_windows_1258 = true := by decide +kernel
 theorem ok_x_mac_cyrillic : TableOk t_x_mac_cyrillic = true := by decide +kernel
 theorem ok_x_user_defined : TableOk t_x_user_defined = true := by decide +kernel
 
-/-- every table the translator found (also the ones a future encoding_rs might add) -/
-theorem ok_tableList : tableList.all TableOk = true := by decide +kernel
+/-- every table the translator found: assembled from the per-table evaluations above (if a future
+encoding_rs adds a table, this proof — not a `decide` — breaks and names it) -/
+theorem ok_tableList : ∀ t ∈ tableList, TableOk t = true := by
+  unfold tableList
+  simp only [List.forall_mem_cons, List.not_mem_nil, false_imp_iff, implies_true, and_true,
+    ok_ibm866, ok_iso_8859_2, ok_iso_8859_3, ok_iso_8859_4, ok_iso_8859_5, ok_iso_8859_6, ok_iso_8859_7, ok_iso_8859_8, ok_iso_8859_10, ok_iso_8859_13, ok_iso_8859_14, ok_iso_8859_15, ok_iso_8859_16, ok_koi8_r, ok_koi8_u, ok_macintosh, ok_windows_874, ok_windows_1250, ok_windows_1251, ok_windows_1252, ok_windows_1253, ok_windows_1254, ok_windows_1255, ok_windows_1256, ok_windows_1257, ok_windows_1258, ok_x_mac_cyrillic, and_self]
 
 /-- every (name, table) pair of the generated list -/
 theorem ok_singleByteTables : ∀ p ∈ singleByteTables, TableOk p.2 = true := by
-  have h : singleByteTables.all (fun p => TableOk p.2) = true := by decide +kernel
-  intro p hp
-  exact List.all_eq_true.mp h p hp
+  unfold singleByteTables
+  simp only [List.forall_mem_cons, List.not_mem_nil, false_imp_iff, implies_true, and_true,
+    ok_ibm866, ok_iso_8859_2, ok_iso_8859_3, ok_iso_8859_4, ok_iso_8859_5, ok_iso_8859_6, ok_iso_8859_7, ok_iso_8859_8, ok_iso_8859_10, ok_iso_8859_13, ok_iso_8859_14, ok_iso_8859_15, ok_iso_8859_16, ok_koi8_r, ok_koi8_u, ok_macintosh, ok_windows_874, ok_windows_1250, ok_windows_1251, ok_windows_1252, ok_windows_1253, ok_windows_1254, ok_windows_1255, ok_windows_1256, ok_windows_1257, ok_windows_1258, ok_x_mac_cyrillic, and_self]
 
 theorem count_singleByteTables : singleByteTables.length = 28 ∧ tableList.length = 27 := by decide
 
